@@ -9,6 +9,7 @@ mod app;
 mod appdns;
 mod apprpc;
 mod appsmb;
+mod bfs;
 mod corpus;
 mod driver;
 mod engine;
